@@ -2,7 +2,9 @@
 The library looks these names up at call time, so wrapping the module attributes needs no repository change.
 
 record mode: the real generator runs; every call is logged (name, exact arguments, returned value, index for choice, thread).
-script mode: the harness supplies the returned values (for choice: the index)."""
+script mode: the harness supplies the returned values (for choice: the index).
+policy mode: a callback (name, args, n_items) -> value / index / None decides each draw while it is asked for (None = let the real generator draw);
+             used to steer draws to the edges of whatever interval the library offers at that moment."""
 import threading
 
 import numpy as np
@@ -11,8 +13,9 @@ NAMES = ["normal", "uniform", "choice", "random", "randint"]
 
 
 class Draws:
-    def __init__(self, script=None):
+    def __init__(self, script=None, policy=None):
         self.script = list(script) if script is not None else None
+        self.policy = policy
         self.log = []
         self._orig = {}
 
@@ -48,8 +51,12 @@ class Draws:
                 plist = None if p is None else [float(x) for x in (list(p.values()) if isinstance(p, dict) else list(p))]
                 entry["p"] = plist
                 entry["items"] = seq
+                forced = rec.policy(name, None, len(seq)) if rec.policy is not None else None
                 if rec.script is not None:
                     idx = rec._next(name)
+                    res = seq[idx]
+                elif forced is not None:
+                    idx = int(forced)
                     res = seq[idx]
                 else:
                     # draw an INDEX with the real generator so that the result is identifiable even when items repeat
@@ -60,8 +67,11 @@ class Draws:
                 rec.log.append(entry)
                 return res
             entry["args"] = [x for x in a] + [k[x] for x in sorted(k)]
+            forced = rec.policy(name, entry["args"], None) if rec.policy is not None else None
             if rec.script is not None:
                 res = rec._next(name)
+            elif forced is not None:
+                res = forced
             else:
                 res = orig(*a, **k)
             entry["result"] = res
